@@ -52,27 +52,46 @@ fn k_pb_ops() {
     kani::cover!(true);
 }
 
-// @ob id=K.path_transform props=C20,C11 kind=bounded:5-ops tier=quick timeout=900 fns=Path::transform,PathOp::transform
-// @+ desc="Path::transform on a path holding one op of each kind, for EVERY f32 coordinate and EVERY affine transform (transform_point replaced by an uninterpreted function): same number of ops, same kinds in the same order, same winding rule, every point p replaced by transform.transform_point(p), each exactly once"
+// @ob id=K.path_transform props=C20,C11 kind=bounded:4-ops tier=quick timeout=900 fns=Path::transform
+// @+ desc="Path::transform on a path MoveTo, QuadTo, Close, LineTo, for EVERY f32 coordinate and EVERY affine transform (transform_point replaced by an uninterpreted function): same number of ops, same kinds in the same order, same winding rule, every point p replaced by transform.transform_point(p), each exactly once (CubicTo: K.pathop_transform)"
 #[kani::proof]
-#[kani::unwind(16)]
+#[kani::unwind(12)]
 #[kani::stub(euclid::Transform2D::transform_point, transform_point_uf)]
 fn k_path_transform() {
-    let v: [f32; 14] = kani::any();
+    let v: [f32; 8] = kani::any();
     let m: [f32; 6] = kani::any();
     let t = Transform::new(m[0], m[1], m[2], m[3], m[4], m[5]);
-    let pts = [Point::new(v[0], v[1]), Point::new(v[2], v[3]), Point::new(v[4], v[5]), Point::new(v[6], v[7]), Point::new(v[8], v[9]), Point::new(v[10], v[11]), Point::new(v[12], v[13])];
+    let pts = [Point::new(v[0], v[1]), Point::new(v[2], v[3]), Point::new(v[4], v[5]), Point::new(v[6], v[7])];
     let eo: bool = kani::any();
     uf_tp_reset();
-    let p = Path { ops: vec![PathOp::MoveTo(pts[0]), PathOp::QuadTo(pts[1], pts[2]), PathOp::Close, PathOp::CubicTo(pts[3], pts[4], pts[5]), PathOp::LineTo(pts[6])], winding: if eo { Winding::EvenOdd } else { Winding::NonZero } };
+    let p = Path { ops: vec![PathOp::MoveTo(pts[0]), PathOp::QuadTo(pts[1], pts[2]), PathOp::Close, PathOp::LineTo(pts[3])], winding: if eo { Winding::EvenOdd } else { Winding::NonZero } };
     let q = p.transform(&t);
     let tp = |k: usize| bits(t.transform_point(pts[k]));
-    assert!(q.ops.len() == 5 && q.winding == (if eo { Winding::EvenOdd } else { Winding::NonZero }), "op count and winding kept");
+    assert!(q.ops.len() == 4 && q.winding == (if eo { Winding::EvenOdd } else { Winding::NonZero }), "op count and winding kept");
     assert!(matches!(q.ops[0], PathOp::MoveTo(a) if bits(a) == tp(0)), "MoveTo mapped");
     assert!(matches!(q.ops[1], PathOp::QuadTo(a, b) if bits(a) == tp(1) && bits(b) == tp(2)), "QuadTo mapped");
     assert!(matches!(q.ops[2], PathOp::Close), "Close kept");
-    assert!(matches!(q.ops[3], PathOp::CubicTo(a, b, c) if bits(a) == tp(3) && bits(b) == tp(4) && bits(c) == tp(5)), "CubicTo mapped");
-    assert!(matches!(q.ops[4], PathOp::LineTo(a) if bits(a) == tp(6)), "LineTo mapped");
+    assert!(matches!(q.ops[3], PathOp::LineTo(a) if bits(a) == tp(3)), "LineTo mapped");
+    kani::cover!(true);
+}
+
+// @ob id=K.pathop_transform props=C20,C11 kind=complete unwind_complete=yes tier=quick timeout=600 fns=PathOp::transform
+// @+ desc="PathOp::transform for every op kind, EVERY f32 coordinate and EVERY affine transform (uninterpreted transform_point): the kind is kept and each point p is replaced by transform.transform_point(p)"
+#[kani::proof]
+#[kani::unwind(14)]
+#[kani::stub(euclid::Transform2D::transform_point, transform_point_uf)]
+fn k_pathop_transform() {
+    let v: [f32; 6] = kani::any();
+    let m: [f32; 6] = kani::any();
+    let t = Transform::new(m[0], m[1], m[2], m[3], m[4], m[5]);
+    let (a, b, c) = (Point::new(v[0], v[1]), Point::new(v[2], v[3]), Point::new(v[4], v[5]));
+    uf_tp_reset();
+    let (ta, tb, tc) = (bits(t.transform_point(a)), bits(t.transform_point(b)), bits(t.transform_point(c)));
+    assert!(matches!(PathOp::MoveTo(a).transform(&t), PathOp::MoveTo(x) if bits(x) == ta), "MoveTo");
+    assert!(matches!(PathOp::LineTo(a).transform(&t), PathOp::LineTo(x) if bits(x) == ta), "LineTo");
+    assert!(matches!(PathOp::QuadTo(a, b).transform(&t), PathOp::QuadTo(x, y) if bits(x) == ta && bits(y) == tb), "QuadTo");
+    assert!(matches!(PathOp::CubicTo(a, b, c).transform(&t), PathOp::CubicTo(x, y, z) if bits(x) == ta && bits(y) == tb && bits(z) == tc), "CubicTo");
+    assert!(matches!(PathOp::Close.transform(&t), PathOp::Close), "Close");
     kani::cover!(true);
 }
 
